@@ -39,7 +39,7 @@ func rx1LongHistories(s *cases.Set, thorough bool, cfgs []bandcfg.Config) {
 		if probe.AddChannel(f0, lo, hi) == nil {
 			ns := []int{14, 33}
 			if main || thorough {
-				ns = []int{13, 14, 15, 16, 17, 31, 32, 33, 48, 64, 94, 100}
+				ns = []int{13, 14, 15, 16, 17, 31, 32, 33, 48, 64, 94, 100, 260} // 260: channel indices beyond one byte
 			}
 			for _, n := range ns {
 				b, _ := c.New()
@@ -51,7 +51,13 @@ func rx1LongHistories(s *cases.Set, thorough bool, cfgs []bandcfg.Config) {
 				opsTerm := fmt.Sprintf("(add_run %d%%Z 200000%%Z %d%%nat %s%%Z %s%%Z)", f0, n, bandcfg.Z(int64(lo)), bandcfg.Z(int64(hi)))
 				hist := fmt.Sprintf("AddChannel(%d + k*200000, %d, %d) for k = 0..%d", f0, lo, hi, n-1)
 				label := fmt.Sprintf("add-run:%d+k*200000/%d/%d:n=%d", f0, lo, hi, n)
+				if n > 200 && !thorough {
+					// 263 channels: the default channels, every 16th index and everything from 248 on
+					// (255, 256, 257 ... - indices that no longer fit one byte); all rows in the thorough tier
+					rowFilter = func(ch int) bool { return ch < 8 || ch%16 == 0 || ch >= 248 }
+				}
 				rx1RowsT(s, c, b, opsTerm, bandcfg.Bools(errs), hist, label, "rx1-channel-after-long-history")
+				rowFilter = nil
 				if n == 100 {
 					// more than 100 operations: five channels off again, first default channel on (it is on)
 					more := []bandcfg.ChanOp{bandcfg.DisableOp(0), bandcfg.DisableOp(16), bandcfg.DisableOp(17), bandcfg.DisableOp(50), bandcfg.DisableOp(102), bandcfg.EnableOp(0)}
